@@ -124,7 +124,11 @@ def run_check(prop, tier):
         if c.tree_hash != th:
             print("ANALYSIS-ERROR: stale fact file for %s" % c.name)
             return 2
+    from . import roles as _roles
+    renamed = _roles.canonicalize(F)
     ctx = Ctx(prop, tier, F, th)
+    for old_q, canon in renamed:
+        ctx.note("role-resolved anchor: %s is %s in this tree" % (canon, old_q))
     spec = PROPS[prop]
     for mname in spec["modules"]:
         mod = importlib.import_module("rules." + mname)
